@@ -415,6 +415,16 @@ func runC20(c *Case, out func(string)) {
 	defer os.RemoveAll(root)
 	s := &c20State{root: root, db: filepath.Join(root, "db"), out: out, oracleOK: true, kf: map[string]bool{},
 		written: map[string]string{}, writtenWAL: map[string]string{}, usedWALDirs: map[string]bool{}}
+	if hdrVal(c.Hdr, "rel", "0") == "1" {
+		// the database is named by a RELATIVE path (as `kevo db` on a command line does): the
+		// process works in the parent of the scratch root for the length of the case, $R stands for
+		// the root's base name, every path the engine is given or stores is relative
+		if cwd, err := os.Getwd(); err == nil && os.Chdir(filepath.Dir(root)) == nil {
+			defer os.Chdir(cwd)
+			s.root = filepath.Base(root)
+			s.db = filepath.Join(s.root, "db")
+		}
+	}
 	s.cfg = config.NewDefaultConfig(s.db)
 	out("BEGIN")
 	defer func() {
@@ -1236,7 +1246,11 @@ func genC20(w *bufio.Writer, seed int64, n int, tier string) {
 				g.line("load")
 			}
 		case 4: // the engine: load-or-create, reopen with the stored configuration
-			g.line("case g%d-%d kind=engine", seed, i)
+			if r.Intn(4) == 0 {
+				g.line("case g%d-%d kind=engine rel=1", seed, i)
+			} else {
+				g.line("case g%d-%d kind=engine", seed, i)
+			}
 			custom := r.Intn(3) > 0
 			g.line("default")
 			if custom {
